@@ -137,7 +137,7 @@ def run_parent(args) -> int:
     os.makedirs(WORK, exist_ok=True)
     os.makedirs(os.path.join(VERIF_DIR, "evidence"), exist_ok=True)
     t0 = time.time()
-    rdir0 = os.path.join(VERIF_DIR, "replays", prop)
+    rdir0 = os.path.join(VERIF_DIR, "replays" if os.path.realpath(REPO) == "/repo" else ".work/replays-scratch", prop)
     if os.path.isdir(rdir0):  # replay files belong to one run
         for fn in os.listdir(rdir0):
             os.remove(os.path.join(rdir0, fn))
@@ -262,7 +262,8 @@ def run_parent(args) -> int:
     replay_paths = []
     if unknown:
         rc = 1
-        rdir = os.path.join(VERIF_DIR, "replays", prop)
+        rbase = "replays" if os.path.realpath(REPO) == "/repo" else ".work/replays-scratch"
+        rdir = os.path.join(VERIF_DIR, rbase, prop)
         os.makedirs(rdir, exist_ok=True)
         seen = set()
         for v in unknown:
@@ -271,7 +272,7 @@ def run_parent(args) -> int:
                 continue
             seen.add(sig)
             hh = h64(json.dumps(v, sort_keys=True, default=str))
-            path = os.path.join("replays", prop, f"{hh}.json")
+            path = os.path.join(rbase, prop, f"{hh}.json")
             with open(os.path.join(VERIF_DIR, path), "w") as f:
                 json.dump(v, f, indent=1, default=str)
             replay_paths.append(path)
@@ -321,7 +322,11 @@ def run_parent(args) -> int:
         "wall_s": round(wall, 2),
         "violations": len(unknown),
     }
-    with open(os.path.join(VERIF_DIR, "evidence", f"{prop}.json"), "w") as f:
+    evdir = os.path.join(VERIF_DIR, "evidence")
+    if os.path.realpath(REPO) != "/repo":  # mutant self-test on a scratch copy: never touch the real evidence
+        evdir = os.path.join(WORK, "evidence-scratch")
+        os.makedirs(evdir, exist_ok=True)
+    with open(os.path.join(evdir, f"{prop}.json"), "w") as f:
         json.dump(ev, f, indent=1, default=str)
     verdict = {0: "HELD", 1: "VIOLATED", 2: "INCONCLUSIVE"}[rc]
     print(f"{prop} {tier} seed={seed}: {verdict} — {evaluations} cases, {len(nontrivial)} distinct non-trivial, "
